@@ -38,6 +38,42 @@ def select(fn, q, lw):
     return False
 
 
+INST_P = r"""
+#include <xtl/xoptional_sequence.hpp>
+#include <xtl/xcomplex_sequence.hpp>
+using BS = xtl::xdynamic_bitset<unsigned char>;
+// the iterator types of xoptional_vector<int, std::allocator<int>, BS> and xcomplex_vector<int, false>
+using OIT = xtl::xoptional_iterator<std::vector<int>::iterator, xtl::xbitset_iterator<BS, false>>;
+using CIT = xtl::xcomplex_iterator<std::vector<int>::iterator, false>;
+static_assert(std::is_same<OIT, xtl::xoptional_vector<int, std::allocator<int>, BS>::iterator>::value, "iterator of the optional vector");
+static_assert(std::is_same<CIT, xtl::xcomplex_vector<int, false>::iterator>::value, "iterator of the complex vector");
+template class xtl::xoptional_iterator<std::vector<int>::iterator, xtl::xbitset_iterator<BS, false>>;
+template class xtl::xcomplex_iterator<std::vector<int>::iterator, false>;
+template <class I> void use(I& a, const I& b, std::ptrdiff_t n) {
+  (void)(a++); (void)(a--); (void)(a != b); (void)(b + n); (void)(n + b); (void)(b - n); (void)(a <= b); (void)(a >= b); (void)(a > b); (void)(a == b); (void)(a < b); (void)(a - b); (void)b[n];
+}
+template void use<OIT>(OIT&, const OIT&, std::ptrdiff_t);
+template void use<CIT>(CIT&, const CIT&, std::ptrdiff_t);
+"""
+REC_ALIAS_P = [(r'xtl::xdynamic_bitset<unsigned char>', 'bs'), (r'xtl::xdynamic_bitset_base<xtl::xdynamic_bitset<unsigned char>>', 'bsb'),
+               (r'xtl::xbitset_iterator<xtl::xdynamic_bitset<unsigned char>,false>', 'bit'), (r'xtl::xbitset_reference<xtl::xdynamic_bitset<unsigned char>,false>', 'bsref'),
+               (r'xtl::xoptional_iterator<.*', 'oit'), (r'xtl::xcomplex_iterator<.*', 'cit'),
+               (r'xtl::xoptional<int&,xtl::xbitset_reference<.*', 'oref'), (r'xtl::xcomplex<int&,int&,false>', 'cref'),
+               (r'xtl::xrandom_access_iterator_base<xtl::xoptional_iterator<.*', 'rab_oit'), (r'xtl::xbidirectional_iterator_base<xtl::xoptional_iterator<.*', 'bib_oit'),
+               (r'xtl::xrandom_access_iterator_base<xtl::xcomplex_iterator<.*', 'rab_cit'), (r'xtl::xbidirectional_iterator_base<xtl::xcomplex_iterator<.*', 'bib_cit'),
+               (r'xtl::xrandom_access_iterator_base<xtl::xbitset_iterator<.*', 'rab_bit'), (r'xtl::xbidirectional_iterator_base<xtl::xbitset_iterator<.*', 'bib_bit')]
+
+
+def select_p(fn, q, lw):
+    if q.startswith('xtl::xoptional_iterator::') or q.startswith('xtl::xcomplex_iterator::'):
+        return not (fn.get('isImplicit') or fn.get('explicitlyDefaulted'))
+    if q.startswith('xtl::xrandom_access_iterator_base::') or q.startswith('xtl::xbidirectional_iterator_base::'):
+        return True
+    if q.startswith('xtl::operator') and fn.get('name', '').startswith('operator'):
+        return 'xoptional_iterator' in fn['type']['qualType'] or 'xcomplex_iterator' in fn['type']['qualType']
+    return False
+
+
 def build(tier, workdir, seed):
     ctext = open(os.path.join(VERIF, 'contracts', 'C12_iter.h')).read()
     units, jobs = [], []
@@ -55,14 +91,25 @@ def build(tier, workdir, seed):
         for lm in lemmas:
             jobs.append(Job('iter%d__%s' % (step, lm), [lp], lm, enforce=None, replace=rep, loop_contracts=True, kind='lemma', prop=PROP, unit=u.name, timeout=600,
                             info={'contract_loops': 0}, objbits=12))
+    # second unit: the paired iterators of the optional / complex sequences (both sub-iterators in lockstep) and their derived operators
+    up = Unit('piter', INST_P, select_p, open(os.path.join(VERIF, 'contracts', 'C12_oiter.h')).read(), REC_ALIAS_P, defines=['NDEBUG'], extra_c='int* xv_arr;\nint* xv_arr2;\n').lower(workdir)
+    units.append(up)
+    todo_p = [c for c in up.contracts if c in up.lw.loops]
+    jobs += up.contract_jobs(PROP, aliases=todo_p, timeout=600, inline_all=True)
+    lp = os.path.join(workdir, 'piter_lemmas.c')
+    open(lp, 'w').write('#include "piter_harness.c"\n' + open(os.path.join(VERIF, 'contracts', 'C12_olemmas.c')).read())
+    for lm in ('lemma_oit_arith', 'lemma_oit_order', 'lemma_oit_postfix', 'lemma_oit_traversal', 'lemma_cit_arith', 'lemma_cit_order', 'lemma_cit_postfix'):
+        jobs.append(Job('piter__%s' % lm, [lp], lm, enforce=None, replace=sorted(todo_p), loop_contracts=True, kind='lemma', prop=PROP, unit=up.name, timeout=600,
+                        info={'contract_loops': 0}, objbits=12))
     return {'jobs': jobs, 'units': units,
             'trusted_base': sorted(set(sum([list(u.std.used) for u in units], []))) + ['clang 14 AST; xtl2c lowering rules (DESIGN.md 3.2)'],
-            'assumptions': ['iterator kinds under contract: xbitset_iterator<xdynamic_bitset<uint8_t>,false> and xstepping_iterator<int*> with step in {1,3} (thorough: {1,2,3,7}); the friend operators are the instantiations of xbidirectional_iterator_base / xrandom_access_iterator_base for these two derived types',
+            'assumptions': ['second unit (piter): xoptional_iterator<vector<int>::iterator, xbitset_iterator<...>> and xcomplex_iterator<vector<int>::iterator,false> (the iterator types of xoptional_vector / xcomplex_vector) with the representation invariant that both sub-iterators stand at the same position; every primitive and derived operator must keep it',
+                            'iterator kinds under contract: xbitset_iterator<xdynamic_bitset<uint8_t>,false> and xstepping_iterator<int*> with step in {1,3} (thorough: {1,2,3,7}); the friend operators are the instantiations of xbidirectional_iterator_base / xrandom_access_iterator_base for these two derived types',
                             'positions and offsets: any a, b in [begin, end] and any n keeping the result in range (container size ghost up to 2^40 for the bitset iterator, up to 10^6 ints for the stepping iterator)',
                             'the laws are lemma harnesses proved over the contracts only (calls replaced by contracts); it[n] == *(it + n) is stated by the two contracts (same designated element) and composed by a meta-argument',
                             'ordering laws are stated for iterators of one container / one array, as in the property'],
             'coverage_extra': {'steps': [1, 3] if tier == 'quick' else [1, 2, 3, 7],
-                               'not_reached': ['xoptional_iterator / xcomplex_iterator (pairs of sub-iterators)', 'xkey_iterator / xvalue_iterator over std::map (node iterators)', 'xrandom_access_iterator_ext size_t overloads',
+                               'not_reached': ['operator[] of xoptional_iterator (proof of the inlined chain did not finish); const / reverse variants of the sequence iterators (same class templates, other sub-iterator types)', 'xkey_iterator / xvalue_iterator over std::map (node iterators)', 'xrandom_access_iterator_ext size_t overloads',
                                                'full-traversal lemma for the stepping iterator (proved for the bitset iterator)', 'reverse_iterator adaptors']}}
 
 
